@@ -56,7 +56,9 @@ impl Engine for CacheEngine {
         let mut c = Tape::fresh(mix(seed, 0xC0F6));
         let mut w = Tape::fresh(mix(seed, 0x3017));
         let n_clients = 1 + c.below(3) as usize;
-        let n_keys = 3 + c.below(10) as usize;
+        let n_keys = 3 + c.below(22) as usize;
+        let (wm_high, wm_low) = *c.pick(&[(1i64, 0i64), (2, 1), (3, 1), (3, 2), (4, 2), (2, 0)]);
+        let uniform = if c.chance(1, 2) { *c.pick(&[100usize * 1024, 150 * 1024, 200 * 1024, 250 * 1024]) } else { 0 };
         let keys: Vec<Vec<u8>> = (0..n_keys).map(|i| format!("ck{i}").into_bytes()).collect();
         let sim = SimConfig {
             strategy: match c.below(3) {
@@ -70,17 +72,24 @@ impl Engine for CacheEngine {
         };
         let mut clients = Vec::new();
         for _ in 0..n_clients {
-            let n = 4 + w.below(if tier == "thorough" { 60 } else { 30 }) as usize;
+            let n = 6 + w.below(if tier == "thorough" { 120 } else { 60 }) as usize;
             let mut ops = Vec::new();
             for _ in 0..n {
                 let key = w.below(n_keys as u32) as usize;
                 ops.push(match w.below(20) {
-                    0..=8 => Op::Insert { key, val: Val { len: *w.pick(&[64usize * 1024, 100 * 1024, 200 * 1024, 250 * 1024, 300 * 1024, 500 * 1024, 1000]), kind: ValKind::Plain }, ts: Ts::Auto, ttl: 0, bytes: false },
+                    0..=8 => Op::Insert {
+                        key,
+                        val: Val { len: if uniform != 0 { uniform } else { *w.pick(&[64usize * 1024, 100 * 1024, 200 * 1024, 250 * 1024, 300 * 1024, 500 * 1024, 1000]) }, kind: ValKind::Plain },
+                        ts: Ts::Auto,
+                        ttl: 0,
+                        bytes: false,
+                    },
                     9..=13 => Op::Get { key, bytes: false },
                     14 | 15 => Op::Delete { key, ts: Ts::Auto },
                     16 | 17 => Op::Flush,
-                    18 => Op::Reopen,
-                    _ => Op::Range { start: Bound::Empty, end: Bound::Max, limit: w.below(6) as usize },
+                    18 if w.chance(1, 3) => Op::Reopen,
+                    19 if w.chance(1, 3) => Op::Range { start: Bound::Empty, end: Bound::Max, limit: w.below(6) as usize },
+                    _ => Op::Get { key, bytes: false },
                 });
             }
             clients.push(ops);
@@ -95,7 +104,7 @@ impl Engine for CacheEngine {
             keys,
             clients,
             faults: FaultPlan::default(),
-            knobs: BTreeMap::new(),
+            knobs: BTreeMap::from([("wm_high".to_string(), wm_high), ("wm_low".to_string(), wm_low)]),
         }
     }
 
@@ -103,7 +112,8 @@ impl Engine for CacheEngine {
         let mut report = BodyReport::default();
         let stats = Arc::new(Statistics::new());
         let cache = Arc::new(ClockCache::new(Arc::clone(&stats)));
-        cache.adjust_watermarks(1, 0);
+        let (wm_high, wm_low) = (sc.knob("wm_high", 1) as usize, sc.knob("wm_low", 0) as usize);
+        cache.adjust_watermarks(wm_high, wm_low);
         let overhead = ClockCache::verif_entry_overhead();
         let problems: Arc<Mutex<Vec<(String, String)>>> = Arc::new(Mutex::new(Vec::new()));
         let counters: Arc<Mutex<BTreeMap<String, u64>>> = Arc::new(Mutex::new(BTreeMap::new()));
@@ -113,10 +123,10 @@ impl Engine for CacheEngine {
             let (cache2, stats2, keys2, ops2, p2, c2) = (Arc::clone(&cache), Arc::clone(&stats), sc.keys.clone(), decode_ops(ops), Arc::clone(&problems), Arc::clone(&counters));
             feoxdb::verif::thread::name_next_spawn("client");
             handles.push(feoxdb::verif::thread::spawn(move || {
-                run_ops(&cache2, &stats2, &keys2, &ops2, ci, false, overhead, &p2, &c2);
+                run_ops(&cache2, &stats2, &keys2, &ops2, ci, false, overhead, (wm_high, wm_low), &p2, &c2);
             }));
         }
-        run_ops(&cache, &stats, &sc.keys, &decode_ops(&sc.clients[0]), 0, sequential, overhead, &problems, &counters);
+        run_ops(&cache, &stats, &sc.keys, &decode_ops(&sc.clients[0]), 0, sequential, overhead, (wm_high, wm_low), &problems, &counters);
         for h in handles {
             let _ = h.join();
         }
@@ -178,13 +188,14 @@ fn run_ops(
     client: usize,
     sequential: bool,
     overhead: usize,
+    watermarks: (usize, usize),
     problems: &Mutex<Vec<(String, String)>>,
     counters: &Mutex<BTreeMap<String, u64>>,
 ) {
     // sequential model: key -> value currently cached (if the cache still holds it)
     let mut model: BTreeMap<usize, Vec<u8>> = BTreeMap::new();
-    let mut high = MB;
-    let mut low = 0usize;
+    let mut high = watermarks.0 * MB;
+    let mut low = watermarks.1 * MB;
     let mut counter = 0u32;
     let bump = |name: &str, n: u64| {
         *counters.lock().unwrap().entry(name.to_string()).or_insert(0) += n;
@@ -198,6 +209,8 @@ fn run_ops(
         match op {
             COp::Insert { key, len } => {
                 let value = crate::harness::plain_value(*key, client as u8, counter, *len);
+                let before = if sequential { cache.verif_entries() } else { Vec::new() };
+                let usage = stats.cache_memory.load(std::sync::atomic::Ordering::Relaxed);
                 cache.insert(keys[*key].clone(), Bytes::from(value.clone()));
                 bump("op.insert", 1);
                 if sequential {
@@ -206,6 +219,34 @@ fn run_ops(
                         // too large to cache: an older entry stays as it is
                     } else {
                         model.insert(*key, value);
+                    }
+                    // an insert over the high watermark sweeps first: same rules as an explicit sweep
+                    let after = cache.verif_entries();
+                    let evicted: Vec<&(Vec<u8>, usize, usize, bool, bool)> = before.iter().filter(|e| e.0 != keys[*key] && !after.iter().any(|a| a.0 == e.0)).collect();
+                    if !evicted.is_empty() {
+                        let after_sweep: usize = after.iter().filter(|a| a.0 != keys[*key] || before.iter().any(|b| b.0 == a.0)).map(|a| if a.0 == keys[*key] { before.iter().find(|b| b.0 == a.0).map(|b| b.1).unwrap_or(0) } else { a.1 }).sum();
+                        let largest = evicted.iter().map(|e| e.1).max().unwrap();
+                        bump("evicted_entries", evicted.len() as u64);
+                        bump("eviction_passes_with_evictions", 1);
+                        if low > 0 {
+                            bump("eviction_passes_with_nonzero_low_watermark", 1);
+                        }
+                        if usage > low && after_sweep + largest <= low {
+                            fail(
+                                "eviction-went-too-far",
+                                format!("op #{i}: the sweep triggered by an insert started at {usage} bytes and ended at {after_sweep}; even without its largest eviction ({largest} bytes) usage would have been at or below the low watermark {low}"),
+                            );
+                        }
+                        let unref: usize = before.iter().filter(|e| !e.3).map(|e| e.1).sum();
+                        if usage > low && unref >= usage - low {
+                            for e in evicted.iter().filter(|e| e.3) {
+                                fail(
+                                    "evicted-referenced-entry",
+                                    format!("op #{i}: entry {:?} had been referenced since the last sweep and was evicted by the sweep an insert triggered although unreferenced entries ({unref} bytes) covered the {} bytes to free", String::from_utf8_lossy(&e.0), usage - low),
+                                );
+                            }
+                        }
+                        model.retain(|k, _| after.iter().any(|a| a.0 == keys[*k]));
                     }
                 }
             }
@@ -257,6 +298,19 @@ fn run_ops(
                     bump("evicted_entries", (before.len() - after.len()) as u64);
                     if usage > low && now > low {
                         fail("eviction-stopped-early", format!("op #{i}: eviction started at {usage} bytes, low watermark {low}, but stopped at {now}"));
+                    }
+                    let evicted_sizes: Vec<usize> = before.iter().filter(|e| !after.iter().any(|a| a.0 == e.0)).map(|e| e.1).collect();
+                    if let Some(largest) = evicted_sizes.iter().max() {
+                        if usage > low && now + largest <= low {
+                            fail(
+                                "eviction-went-too-far",
+                                format!("op #{i}: eviction started at {usage} bytes and ended at {now}; even without its largest eviction ({largest} bytes) usage would have been at or below the low watermark {low}: {} entries evicted", evicted_sizes.len()),
+                            );
+                        }
+                        bump("eviction_passes_with_evictions", 1);
+                        if low > 0 {
+                            bump("eviction_passes_with_nonzero_low_watermark", 1);
+                        }
                     }
                     if usage <= low && after.len() != before.len() {
                         fail("eviction-below-watermark", format!("op #{i}: usage {usage} was already at or below the low watermark {low} but entries were evicted"));
